@@ -58,7 +58,12 @@ func sSeriesKey(s int) string {
 	return b.String()
 }
 
-func sTime(k int) int64 { return sBaseTime + int64(k)*sStep }
+func sTime(k int) int64 {
+	if sTimeTab != nil { // C07 cases with a time mode (s_codec.go)
+		return sTimeOfTab(k)
+	}
+	return sBaseTime + int64(k)*sStep
+}
 
 // SRow is one generated point: measurement, series, time slot and the set of
 // fields it carries (bit i = sFieldNames[i]).  Values are a function of the
@@ -69,6 +74,11 @@ type SRow struct {
 	T int `json:"t"`
 	F int `json:"f"`
 	P int `json:"p,omitempty"` // KiB of incompressible padding appended to the string field (large records)
+	// val_mode 2 only: the float field of this row. Bits 0-1: 1 NaN, 2 +Inf, 3 -Inf instead of the column's value;
+	// bits 2-3: an ordinary value that differs from row to row instead of the column's pattern (1 integers,
+	// 2 at most three decimals, 3 six decimals) - "exactly one special value in an otherwise ordinary column";
+	// bits 4-5: 1 the value is -0.0, 2 -0.0 / +0.0 by slot parity
+	X int `json:"x,omitempty"`
 }
 
 // sVal is a typed field value.
@@ -119,7 +129,9 @@ func (v sVal) equal(o sVal) bool {
 // worker process).  Mode 0: every (write, cell) value is unique and attributable.
 // Mode 1 (C07): codec-boundary values - per (series, field) column patterns
 // (constant, constant-delta, small deltas, extremes, random bits; NaN payloads,
-// +-Inf, -0.0, subnormals; empty / long / compressible / random strings).
+// +-Inf, -0.0, subnormals; empty / long / compressible / random strings).  Mode 1 is
+// kept as it was for the replay files that were recorded with it; mode 2 (s_codec.go)
+// is the generator that new C07 cases use.
 var (
 	sValMode int
 	sValSeed uint64
@@ -130,6 +142,9 @@ var (
 func cellValue(w int, r SRow, f string) sVal {
 	if sValMode == 1 {
 		return codecValue(w, r, f)
+	}
+	if sValMode == 2 {
+		return codecValue2(w, r, f)
 	}
 	cell := int64(r.M)*100000 + int64(r.S)*1000 + int64(r.T)
 	switch f {
@@ -499,7 +514,7 @@ func fmtRow(r sDumpRow) string {
 	}
 	sort.Strings(ks)
 	var b strings.Builder
-	fmt.Fprintf(&b, "{%s t=%d", r.Series, (r.Time-sBaseTime)/sStep)
+	fmt.Fprintf(&b, "{%s t=%d", r.Series, sSlot(r.Time))
 	for _, f := range ks {
 		fmt.Fprintf(&b, " %s=%s", f, r.Fields[f])
 	}
